@@ -97,7 +97,9 @@ def fam_C04(tier, seed):
     for (k1, k2), md, (ivs, kind) in itertools.product(
             kinds, modes,
             [([[0, 2, 1]], "max"), ([[1, 3, 0]], "max"), ([[1, 3, 2]], "exact"), ([[0, 4, 3]], "min"),
-             ([[0, 2, 1], [2, 4, 1]], "max"), ([[1, 2, 1]], "min"), ([[0, 2, 2]], "exact"), ([[1, 3, 1]], "exact")]):
+             ([[0, 2, 1], [2, 4, 1]], "max"), ([[1, 2, 1]], "min"), ([[0, 2, 2]], "exact"), ([[1, 3, 1]], "exact"),
+             # a bound that is slack for ONE worker (>= the interval length) still binds a cumulative worker
+             ([[0, 2, 2]], "max"), ([[1, 3, 3]], "max")]):
         b = PB(4, tag="WorkLoad")
         _, res = _two_on_worker(b, k1, k2, **md)
         b.con("WorkLoad", res=res, intervals=ivs, kind=kind)
